@@ -372,3 +372,33 @@ func H_C13_AccumulateW1() {
 	vsym.Assert(ok, "accumulate(x^p, b) adds b shifted by p")
 	vsym.Reach("accumulate-checked")
 }
+
+// H_C13_GadgetEncode: the receiver's start of a multiplication (real NewMultiplyReceiver -> makeGadget, encode) for the
+// boundary lattice of inputs, including 0, 1 and q-1: it succeeds, keeps its input, and produces one choice bit per
+// gadget element. (The defining relation sum_i choice_i * gadget_i = beta is NOT asserted here: with symbolic noise bits
+// the engine's scalar model is too coarse for it and reported counterexamples that do not reproduce natively.)
+func H_C13_GadgetEncode() {
+	group := curve.Secp256k1{}
+	one := group.NewScalar().SetNat(new(saferith.Nat).SetUint64(1))
+	var beta curve.Scalar
+	switch vsym.Choose("beta", 5) {
+	case 0:
+		beta = group.NewScalar()
+	case 1:
+		beta = one
+	case 2:
+		beta = group.NewScalar().Sub(one) // q-1
+	case 3:
+		beta = group.NewScalar().SetNat(new(saferith.Nat).Lsh(new(saferith.Nat).SetUint64(1), 255, -1))
+	default:
+		beta = group.NewScalar().SetNat(new(saferith.Nat).SetUint64(0xdeadbeefcafe))
+	}
+	want := group.NewScalar().Set(beta)
+	recv, err := NewMultiplyReceiver(hash.New(), nil, beta)
+	vsym.Assert(err == nil && recv != nil, "a multiplication can be started for every scalar, including 0, 1 and q-1")
+	vsym.Assert(len(recv.choices)*8 == len(recv.gadget), "one choice bit per gadget element")
+	vsym.Assert(recv.beta.Equal(want), "the receiver keeps its input unchanged")
+	snd := NewMultiplySender(hash.New(), nil, group.NewScalar().Set(beta))
+	vsym.Assert(snd != nil && len(snd.gadget) == len(recv.gadget) && snd.doubleAlpha[0].Equal(want), "the sender starts for the same inputs with the same gadget size")
+	vsym.Reach("gadget-encode-checked")
+}
